@@ -57,6 +57,9 @@ enum Kind {
     PaseStop(u8),
     PaseGarbage(u8),
     PaseWrongPasscode,
+    /// a peer opens a secure-channel exchange with a message that asks for no acknowledgement
+    /// (1 = PBKDFParamRequest, 2 = Sigma1 opcode) and is never heard of again
+    StrayUnreliable(u8),
 }
 
 impl Kind {
@@ -317,6 +320,19 @@ fn run(spec: &RunSpec) -> Result<Summary, String> {
             let prev_done = started == 0 || w.obs.borrow().results[started - 1].is_some() || vanished[started - 1];
             let prev_started_2ms_ago = started == 0 || concurrent;
             if (concurrent && prev_started_2ms_ago) || (!concurrent && prev_done && w.net.inflight_len() == 0) {
+                if let Kind::StrayUnreliable(which) = kind {
+                    let idx = net_idx(started);
+                    let bytes = crate::common::wire::craft_plain(0x5000 + started as u64, 0x0100_0000 + started as u32, 0x01, if which == 1 { 0x20 } else { 0x30 }, 0x6000 + started as u16, 0, &[0x15, 0x18]);
+                    vclock::advance_by_ms(1);
+                    w.net.inject(idx, 1, bytes);
+                    let last = w.net.inflight_len() - 1;
+                    w.net.deliver(last, false);
+                    // (whatever the device answers goes to a peer that is gone)
+                    vanished[started] = true;
+                    started += 1;
+                    w.exec.run()?;
+                    continue;
+                }
                 start_attempt(&mut w, started, Some(kind), spec.seed);
                 started += 1;
                 w.exec.run()?;
@@ -698,6 +714,8 @@ fn kind_from(s: &str) -> Kind {
         Kind::PaseStop(n)
     } else if s.starts_with("PaseGarbage") {
         Kind::PaseGarbage(n)
+    } else if s.starts_with("StrayUnreliable") {
+        Kind::StrayUnreliable(n)
     } else {
         match s {
             "CaseOk" => Kind::CaseOk,
@@ -804,6 +822,20 @@ pub fn run_check(ctx: &Ctx) -> i32 {
                 a.1 = fill != Kind::CaseOk; // abandoned ones pile up concurrently
             }
             specs.push(RunSpec { attempts, cancel_responder_after: 0, seed });
+        }
+    }
+    // every handler of the responder pool (3) busy with a stalled handshake, and then an opener that asks
+    // for no acknowledgement: nobody accepts it within the accept deadline, nothing is owed to the peer
+    for stall in [[Kind::CaseStop(1), Kind::CaseStop(1), Kind::CaseStop(1)], [Kind::PaseStop(1), Kind::CaseStop(1), Kind::CaseStop(1)], [Kind::PaseStop(2), Kind::CaseStop(1), Kind::CaseStop(1)]] {
+        for which in [1u8, 2] {
+            for n_stray in [1usize, 3] {
+                let mut attempts = vec![(stall[0], false), (stall[1], true), (stall[2], true)];
+                for _ in 0..n_stray {
+                    // (not concurrent: it arrives once the stalled initiators have vanished and the wire is quiet)
+                    attempts.push((Kind::StrayUnreliable(which), false));
+                }
+                specs.push(RunSpec { attempts, cancel_responder_after: 0, seed });
+            }
         }
     }
     let results: Vec<(usize, Result<Result<Summary, String>, common::Panic>)> = specs.par_iter().enumerate().map(|(k, s)| (k, common::catch(|| run(s)))).collect();
